@@ -18,10 +18,15 @@ LEVEL = "exploration"
 TECHNIQUE = ("generated template sets with one marked single-line failing construct; expected line "
              "counted by the harness from the source text; traceback.extract_tb / "
              "TemplateSyntaxError.lineno compared")
-RULE = ("case = (site kind [40 single-line raising forms: calls in {{ }}/set/if/elif/for/for-filter/"
-        "with/print/do/call/filter-block/set-block/macro default/include/import/autoescape/trans "
-        "arguments, raising filter/test/attribute/item/method, division by zero, StrictUndefined "
-        "chains, missing include/import | 22 single-line malformed forms], optional '-' whitespace control on the site tag, nesting chain of 0-4 wrappers "
+RULE = ("case = (site kind [58 single-line raising forms: calls in every expression position of "
+        "{{ }}/set/if/elif/for/for-filter/with/print/do/call/filter-block/set-block/macro default/"
+        "macro and call-block arguments/filter and test arguments/include/import/from/extends/"
+        "autoescape/trans, raising filter/test/attribute/item/method, division by zero, "
+        "StrictUndefined chains, missing include/import | 34 multi-line statements whose raising "
+        "tag is a single-line tag on a line of its own between other branches/statements (elif "
+        "conditions, else/elif/for-else bodies, second statements of bodies, tags after a closed "
+        "statement) | 22 single-line malformed forms], optional '-' whitespace control on the site "
+        "tag, optional statement on the line above/below, nesting chain of 0-4 wrappers "
         "[if/else, for, with, macro+call, call block, filter block, set block, autoescape, block, "
         "include, imported macro, child block of a parent, parent block (+super), parent "
         "top-level], filler before/after at every level [text lines, blank lines, multi-line tags/"
@@ -30,10 +35,13 @@ RULE = ("case = (site kind [40 single-line raising forms: calls in {{ }}/set/if/
         "sync | async). distinct = distinct (part, site kind, ws control, wrapper chain, filler "
         "feature set before the site, env, loader, mode)")
 LEVEL_TEXT = ("held on K generated (template set, site) executions: reported line == harness-counted "
-              "line of the single-line failing construct; generated shapes only; multi-line failing "
-              "constructs are not claimed")
+              "line of the single-line tag holding the failing expression (also when it is an inner "
+              "tag of a multi-line statement); generated shapes only; failing expressions spread "
+              "over several lines inside one tag are not claimed")
 ASSUMPTIONS = [
-    "the failing construct occupies a single source line (its surroundings need not)",
+    "the tag holding the failing expression occupies a single source line; the statement it "
+    "belongs to and its surroundings need not (an expression spread over several lines inside one "
+    "tag is not claimed: tag line vs expression line is undocumented)",
     "helper callables/values live in env.globals so imported macros see them",
     "for dict-loaded templates every template frame carries the same pseudo filename, so only the "
     "line (not which template) is checked there; the filesystem loader checks both",
@@ -126,6 +134,71 @@ RAISING = [
     ("include-missing", "{% include 'missing.html' %}", "TemplateNotFound"),
     ("import-missing", "{% import 'missing.html' as q %}", "TemplateNotFound"),
     ("from-missing", "{% from 'missing.html' import q %}", "TemplateNotFound"),
+    # every remaining expression position of the statements used here
+    ("filter-arg", "{{ 'a'|replace(boom(), 'b') }}", "Boom"),
+    ("filter-kwarg", "{{ 'a'|default(value=boom()) }}", "Boom"),
+    ("filter-block-arg", "{% filter replace(boom(), 'b') %}x{% endfilter %}", "Boom"),
+    ("set-block-filter-arg", "{% set q | replace(boom(), 'b') %}x{% endset %}", "Boom"),
+    ("call-kwarg", "{{ ident(v=boom()) }}", "Boom"),
+    ("macro-call-arg", "{% macro cm1(a) %}{{ a }}{% endmacro %}{{ cm1(boom()) }}", "Boom"),
+    ("callblock-arg", "{% macro cw1(a) %}[{{ caller() }}]{% endmacro %}{% call cw1(boom()) %}x{% endcall %}",
+     "Boom"),
+    ("from-expr", "{% from boom() import q %}", "Boom"),
+    ("include-list-expr", "{% include [boom(), 'x'] %}", "Boom"),
+    ("with-second-value", "{% with p = 1, q = boom() %}x{% endwith %}", "Boom"),
+    ("print-second", "{% print 1, boom() %}", "Boom"),
+    ("for-recursive-iter", "{% for q in boom() recursive %}x{% endfor %}", "Boom"),
+    ("getitem-expr", "{{ items[boom()] }}", "Boom"),
+    ("test-arg-call", "{{ 1 is divisibleby(boom()) }}", "Boom"),
+    ("list-literal", "{{ [1, boom()] }}", "Boom"),
+    ("compare", "{{ 1 < boom() }}", "Boom"),
+    ("and-or", "{{ true and boom() }}", "Boom"),
+    ("extends-expr", "{% extends boom() %}", "Boom", "top"),
+]
+# statements spanning several lines; the tag that holds the raising expression
+# is a complete single-line tag on a line of its own (marked @@), with other
+# statements / branches of the same statement on the lines before and after it.
+# "\n" is replaced by a random line-break form.
+RAISING_ML = [
+    ("ml:elif-cond/first", "{% if false %}\nq\n@@{% elif boom() %}\nx\n{% endif %}", "Boom"),
+    ("ml:elif-cond/second", "{% if false %}\nq\n{% elif false %}\nr\n\n@@{% elif boom() %}\nx\n{% else %}\ny\n{% endif %}",
+     "Boom"),
+    ("ml:elif-cond/after-empty-body", "{% if false %}\n@@{% elif boom() %}\nc\n{% endif %}", "Boom"),
+    ("ml:elif-cond/after-nested", "{% if false %}\n{% for q in items %}\n{{ q }}\n{% endfor %}\n@@{% elif boom() %}\nc\n{% endif %}",
+     "Boom"),
+    ("ml:if-after-stmt", "{% set _p = 1 %}\n@@{% if boom() %}\nx\n{% endif %}\n{% set _t = 1 %}", "Boom"),
+    ("ml:if-in-else", "{% if false %}\na\n{% else %}\n@@{% if boom() %}x{% endif %}\n{% endif %}", "Boom"),
+    ("ml:elif-body", "{% if false %}\na\n{% elif true %}\nb\n@@{{ boom() }}\n{% endif %}", "Boom"),
+    ("ml:else-body", "{% if false %}\na\n{% else %}\nb\n@@{{ boom() }}\n{% endif %}", "Boom"),
+    ("ml:for-iter", "{% set _p = 1 %}\n@@{% for q in boom() %}\n{{ q }}\n{% endfor %}", "Boom"),
+    ("ml:for-filter", "x\n@@{% for q in items if boom() %}\n{{ q }}\n{% endfor %}", "Boom"),
+    ("ml:for-else-body", "{% for q in [] %}\na\n{% else %}\n@@{{ boom() }}\n{% endfor %}", "Boom"),
+    ("ml:for-body-second-stmt", "{% for q in items %}\n{{ q }}\n@@{% set r = boom() %}\n{% endfor %}", "Boom"),
+    ("ml:set-between", "{% set _a = 1 %}\n@@{% set q = boom() %}\n{% set _b = 2 %}", "Boom"),
+    ("ml:with-after-with", "{% with _a = 1 %}\n{{ _a }}\n{% endwith %}\n@@{% with q = boom() %}\nx\n{% endwith %}",
+     "Boom"),
+    ("ml:with-body", "{% with _a = 1 %}\n{{ _a }}\n@@{{ boom() }}\n{% endwith %}", "Boom"),
+    ("ml:macro-default", "@@{% macro dm2(a=boom()) %}\n{{ a }}\n{% endmacro %}\n\n{{ dm2() }}", "Boom"),
+    ("ml:macro-body", "{% macro mb2() %}\na\n@@{{ boom() }}\n{% endmacro %}\n\n{{ mb2() }}", "Boom"),
+    ("ml:macro-call-arg", "{% macro cm2(a) %}\n{{ a }}\n{% endmacro %}\n@@{{ cm2(boom()) }}\n", "Boom"),
+    ("ml:callblock-arg", "{% macro cw2(a) %}[{{ caller() }}]{% endmacro %}\n@@{% call cw2(boom()) %}\nx\n{% endcall %}",
+     "Boom"),
+    ("ml:callblock-body", "{% macro cw3() %}[{{ caller() }}]{% endmacro %}\n{% call cw3() %}\nx\n@@{{ boom() }}\n{% endcall %}",
+     "Boom"),
+    ("ml:filter-block-arg", "x\n@@{% filter replace(boom(), 'b') %}\nx\n{% endfilter %}", "Boom"),
+    ("ml:filter-block-body", "{% filter upper %}\nx\n@@{{ boom() }}\n{% endfilter %}", "Boom"),
+    ("ml:set-block-filter-arg", "x\n@@{% set q | replace(boom(), 'b') %}\nx\n{% endset %}", "Boom"),
+    ("ml:set-block-filter", "x\n@@{% set q | boomf %}\nx\ny\n{% endset %}\nz", "Boom"),
+    ("ml:filter-block-filter", "x\n@@{% filter boomf %}\nx\ny\n{% endfilter %}\nz", "Boom"),
+    ("ml:callblock-call", "x\n@@{% call boom() %}\nx\ny\n{% endcall %}\nz", "Boom"),
+    ("ml:set-block-body", "{% set cap %}\nx\n@@{{ boom() }}\n{% endset %}", "Boom"),
+    ("ml:include-expr", "x\n@@{% include boom() %}\ny", "Boom"),
+    ("ml:import-expr", "{% set _p = 1 %}\n@@{% import boom() as q %}\ny", "Boom"),
+    ("ml:autoescape-expr", "x\n@@{% autoescape boom() %}\nx\n{% endautoescape %}", "Boom"),
+    ("ml:autoescape-body", "{% autoescape true %}\nx\n@@{{ boom() }}\n{% endautoescape %}", "Boom"),
+    ("ml:trans-after-trans", "{% trans %}\na\n{% endtrans %}\n@@{% trans q=boom() %}{{ q }}{% endtrans %}", "Boom"),
+    ("ml:do-between", "{% do 1 %}\n@@{% do boom() %}\n{% do 2 %}", "Boom"),
+    ("ml:output-third-line", "a\n{{ 1 }}\n@@{{ boom() }}\nb", "Boom"),
 ]
 MALFORMED = [
     ("binop-eof", "{{ 1 + }}"), ("stray-paren", "{{ ) }}"), ("pipe-eof", "{{ x | }}"),
@@ -296,14 +369,22 @@ class Gen:
 def gen_case(r, part):
     """-> JSON-able case dict."""
     g = Gen(r)
-    if part == "runtime":
-        kind, site_src, exc = r.choice(RAISING)
+    top_only = False
+    multiline = False
+    if part == "runtime" and r.random() < 0.35:
+        kind, site_src, exc = r.choice(RAISING_ML)
+        multiline = True
+        site_src = "".join(g.nl() if ch == "\n" else ch for ch in site_src)
+    elif part == "runtime":
+        row = r.choice(RAISING)
+        kind, site_src, exc = row[:3]
+        top_only = len(row) > 3 and row[3] == "top"
     else:
         kind, site_src = r.choice(MALFORMED)
         exc = "TemplateSyntaxError"
     # optional whitespace control on the site tag itself, preceded by line
     # breaks that it strips
-    ws = r.choice(["", "", "", "l", "r", "lr"])
+    ws = "" if multiline else r.choice(["", "", "", "l", "r", "lr"])
     stripped_before = False
     if ws:
         op = site_src[:2]
@@ -316,14 +397,20 @@ def gen_case(r, part):
         site_src = s
     lead = ""
     if r.random() < 0.5:
-        lead = r.choice(["text ", "{{ 1 }} ", "{% if true %}{% endif %}", "  "])
+        # something before the site on its line, or a statement on the line above
+        lead = r.choice(["text ", "{{ 1 }} ", "{% if true %}{% endif %}", "  ",
+                         "{% set _p0 = 1 %}" + g.nl(), "{{ 1 }}" + g.nl()])
         if "l" in ws and not lead.strip():
             stripped_before = True
     if "l" in ws and r.random() < 0.7:
         lead = r.choice(["x", ""]) + g.nl() * r.randint(1, 3) + r.choice(["", "  "])
         stripped_before = True
-    tail = r.choice(["", "", " tail", g.nl() + g.nl()])
-    inner = g.filler(True) + lead + SITE + site_src + tail + g.filler(False)
+    tail = r.choice(["", "", " tail", g.nl() + g.nl(), g.nl() + "{{ 2 }}", g.nl() + "{% set _t0 = 2 %}"])
+    if "@@" in site_src:
+        site_src = site_src.replace("@@", SITE)
+    else:
+        site_src = SITE + site_src
+    inner = g.filler(True) + lead + site_src + tail + g.filler(False)
     # wrapper chain, innermost first
     depth = r.choice([0, 1, 1, 2, 2, 3, 4])
     chain = []
@@ -332,7 +419,10 @@ def gen_case(r, part):
     # choose outermost->innermost respecting: no block inside macro/call/set/filter
     kinds_out_in = []
     for _ in range(depth):
-        if part == "runtime" and r.random() < 0.35:
+        if top_only:
+            # statements that belong at the top level of a template
+            kinds_out_in.append(r.choice(["if", "else", "include"]))
+        elif part == "runtime" and r.random() < 0.35:
             kinds_out_in.append(r.choice(CROSS_WRAPPERS))
         elif part == "syntax" and r.random() < 0.25:
             kinds_out_in.append("include")
@@ -422,7 +512,8 @@ def _check(ctx, case, tmpdir, jinja2):
         ctx.count("crossed_template")
     if case["line"] > 1:
         ctx.count("multiline_before_site")
-    tag = f"{part}:{case['kind']}"
+    mech = case["kind"].split("/")[0]     # variants of one construct share the key
+    tag = f"{part}:{mech}"
     desc = (f"{case['kind']} at {case['site_tpl']}:{case['line']} chain={case['chain']} "
             f"env={case['env']} loader={case['loader']} mode={case['mode']}")
     exc = None
@@ -447,7 +538,7 @@ def _check(ctx, case, tmpdir, jinja2):
     if part == "syntax":
         ctx.count("syntax_line_checks")
         if exc.lineno != case["line"]:
-            ctx.violation(f"syntax-lineno:{case['kind']}",
+            ctx.violation(f"syntax-lineno:{mech}",
                           f"{desc}: TemplateSyntaxError({exc.message!r}).lineno={exc.lineno}, the "
                           f"malformed construct is on line {case['line']} of "
                           f"{case['templates'][case['site_tpl']]!r}", case)
@@ -466,19 +557,19 @@ def _check(ctx, case, tmpdir, jinja2):
     frames = [f for f in traceback.extract_tb(exc.__traceback__) if f.filename in fnset]
     ctx.count("runtime_line_checks")
     if not frames:
-        ctx.violation(f"no-template-frame:{case['kind']}", f"{desc}: no traceback frame carries a "
+        ctx.violation(f"no-template-frame:{mech}", f"{desc}: no traceback frame carries a "
                       f"template filename {sorted(fnset)}", case)
         return
     inner = frames[-1]
     if inner.lineno != case["line"]:
-        ctx.violation(f"runtime-lineno:{case['kind']}",
+        ctx.violation(f"runtime-lineno:{mech}",
                       f"{desc}: innermost template frame is {inner.filename}:{inner.lineno}, the "
                       f"raising construct is on line {case['line']} of "
                       f"{case['templates'][case['site_tpl']]!r}", case)
     if case["loader"] == "fs":
         ctx.count("fs_filename_checks")
         if inner.filename != names[case["site_tpl"]]:
-            ctx.violation(f"runtime-filename:{case['kind']}",
+            ctx.violation(f"runtime-filename:{mech}",
                           f"{desc}: innermost template frame names {inner.filename}, the raising "
                           f"construct is in {names[case['site_tpl']]}", case)
     ctx.dist(dist_key)
